@@ -50,7 +50,8 @@ def gen_queue(rng, tier, seed):
         if r < 0.42:
             ops.append(['enq', c, rng.choice([1, 1, 1, 2, 3])])
         elif r < 0.72:
-            ops.append(['complete', c, rng.choice([1, 1, 1, 2, 3, B])])
+            # one event may report several handles; with faults on, an unknown (stale) handle may come first in it
+            ops.append(['complete', c, rng.choice([1, 1, 1, 2, 3, B]), (not honest) and rng.random() < 0.25])
         elif r < 0.78:
             if honest:
                 ops.append(['complete', c, 1])
@@ -203,10 +204,13 @@ def run_queue(case):
 
         epoch = {h: 0 for h in handles}
 
-        def report(hd, n):
+        def report(hd, n, stale_first=False):
             if via_host:
+                hs, ns = ([0x0777, hd], [1, n]) if stale_first else ([hd], [n])
+                if stale_first:
+                    sim.fault('unknown_handle_first_in_a_multi_handle_report')
                 host.on_packet(bytes(hci.HCI_Number_Of_Completed_Packets_Event(
-                    connection_handles=[hd], num_completed_packets=[n])))
+                    connection_handles=hs, num_completed_packets=ns)))
             else:
                 q.on_packets_completed(n, hd)
 
@@ -238,7 +242,7 @@ def run_queue(case):
                 if n > 0:
                     stub.out[hd] -= n
                     done_total += n
-                    report(hd, n)
+                    report(hd, n, stale_first=len(op) > 3 and bool(op[3]))
             elif kind == 'over':
                 have = stub.out[hd]
                 n = have + op[2]
@@ -315,7 +319,7 @@ def gen_pipe(rng, tier, seed):
     for _ in range(nops):
         r = rng.random()
         if r < 0.5:
-            ops.append(['write', rng.choice([1, 1, 2, 5, 20])])
+            ops.append(['write', rng.choice([-1, 0, 1, 1, 2, 5, 20])])  # -1: a truly empty packet
         elif r < 0.62:
             ops.append(['pause'])
         elif r < 0.75:
@@ -342,7 +346,7 @@ def run_pipe(case):
         state = {'paused': False}
 
         def write_to_sink(packet: bytes) -> None:
-            pid = int.from_bytes(packet[:4], 'big')
+            pid = int.from_bytes(packet[:4], 'big') if len(packet) else -1
             if state['paused']:
                 sim.probe('write_while_paused')
             received.append(pid)
@@ -382,12 +386,16 @@ def run_pipe(case):
                 started = True
             kind = op[0]
             if kind == 'write':
-                pid = nid
-                nid += 1
+                if op[1] < 0:
+                    pid = -1  # empty packets carry no id: their position in the sequence is what is checked
+                    sim.probe('empty_packet_written')
+                else:
+                    pid = nid
+                    nid += 1
                 written.append(pid)
                 if pending_drains or state['paused']:
                     sim.probe('write_while_blocked')
-                pipe.write(pid.to_bytes(4, 'big') + bytes(op[1]))
+                pipe.write(b'' if op[1] < 0 else pid.to_bytes(4, 'big') + bytes(op[1]))
             elif kind == 'pause':
                 state['paused'] = True
                 pipe.pause()
